@@ -1,5 +1,5 @@
 (* C07  Hydro task graph: every task once, in order, conflict-free, terminates.
-   Only statements, each closed by [exact] of a lemma of Cxx/C07_Proofs.v / Cxx/C07_Graph.v.
+   Only statements, each closed by [exact] of a lemma of Cxx/C07_Proofs.v / Cxx/C07_GraphGen.v / Cxx/C07_Graph.v.
 
    Model (Cxx/C07_Defs.v): [step g s (L i pick)] is one access of worker thread i to shared data in the worker loop
    of the hydro step (control points LoopHead / Fetch / Run / Unlock / Release k / Enq k / Inc k, in the order of the
@@ -7,7 +7,7 @@
    queued lockable task a fetch returns or that it returns none) of n threads; [log] is the ghost sequence of
    start/stop events (newest first).  [wf g] is the well-formedness of a task graph, decided by [wf_check]. *)
 From Coq Require Import Arith List Bool PeanoNat.
-From CMI Require Import Cxx.C07_Defs Cxx.C07_Base Cxx.C07_Proofs Cxx.C07_Graph.
+From CMI Require Import Cxx.C07_Defs Cxx.C07_Base Cxx.C07_Proofs Cxx.C07_GraphGen Cxx.C07_Graph.
 Import ListNotations.
 
 (* No task is started or stopped twice; when every thread has left the loop every task has been started and stopped. *)
@@ -82,14 +82,60 @@ Theorem C07_wf_check_sound : forall g, wf_check g = true -> wf g.
 Proof. exact wf_check_sound. Qed.
 Print Assumptions C07_wf_check_sound.
 
-(* PARTIAL (bounded): the task graph built by make_hydro_tasks/set_dependencies/reset_hydro_tasks of the repaired code
-   ([make_graph true]) is well formed for EVERY layout with 1..4 subgrids per axis and EVERY periodicity, including
-   a periodic axis with one subgrid - proved by evaluating wf_check in the kernel for these 512 graphs; not proved for
-   larger layouts (there wf_check is evaluated on the real dumped table on every run of the check). *)
-Theorem C07_make_graph_wf_partial : forall Y,
-  1 <= lnx Y <= 4 -> 1 <= lny Y <= 4 -> 1 <= lnz Y <= 4 -> wf (make_graph true Y).
-Proof. exact make_graph_wf_partial. Qed.
-Print Assumptions C07_make_graph_wf_partial.
+(* The task graph built by make_hydro_tasks/set_dependencies/reset_hydro_tasks of the repaired code ([make_graph true])
+   is well formed for EVERY layout - any number >= 1 of subgrids per axis, every periodicity, including periodic axes with
+   one or two subgrids.  Hence all theorems above apply to every hydro step of the code.  Proof (Cxx/C07_GraphGen.v):
+   closed form of the sequential task numbering (C07_make_graph_numbering), mutual in-range neighbours
+   (C07_neighbours_mutual), and counting of the 23 edges per subgrid over slot references: the counters 0/7/1/1|2/7/1 of
+   reset_hydro_tasks are exactly the in-degrees, <= 7 children, edges go up in phase, locks cover the touched subgrids. *)
+Theorem C07_make_graph_wf : forall Y, 1 <= lnx Y -> 1 <= lny Y -> 1 <= lnz Y -> wf (make_graph true Y).
+Proof. exact make_graph_wf. Qed.
+Print Assumptions C07_make_graph_wf.
+
+(* Every layout: the locks of a task are EXACTLY the locks of the subgrids it touches, and a pair task of a subgrid with
+   itself (one subgrid on a periodic axis - the layouts of defect D2) has exactly one lock, that of its subgrid. *)
+Theorem C07_make_graph_locks_exact : forall Y, 1 <= lnx Y -> 1 <= lny Y -> 1 <= lnz Y ->
+  forall t, t < length (make_graph true Y) ->
+    (forall x, In x (locks (tk (make_graph true Y) t)) <-> In x (touches (tk (make_graph true Y) t))) /\
+    (other (tk (make_graph true Y) t) = Some (sub (tk (make_graph true Y) t)) ->
+     locks (tk (make_graph true Y) t) = [sub (tk (make_graph true Y) t)]).
+Proof. exact make_graph_locks_exact. Qed.
+Print Assumptions C07_make_graph_locks_exact.
+
+(* Closed form of the sequential numbering (tasks.get_free_element() hands out consecutive indices): [base Y i] = number of
+   tasks of the subgrids before i, [num Y (j, s)] = base Y j + number of slots < s of subgrid j that hold a task.  Every
+   task number is num of exactly the slot it was created for, the slot table (set_hydro_task) holds num, the task has
+   the fields given by make_hydro_tasks for that slot, and its children are the edges [EN Y] of set_dependencies. *)
+Theorem C07_make_graph_numbering : forall Y, 1 <= lnx Y -> 1 <= lny Y -> 1 <= lnz Y ->
+  length (make_graph true Y) = base Y (nsub Y) /\
+  (forall t, t < length (make_graph true Y) -> exists j s, j < nsub Y /\ present Y j s = true /\ t = num Y (j, s)) /\
+  (forall j s, j < nsub Y -> present Y j s = true ->
+     num Y (j, s) < length (make_graph true Y) /\
+     ht (make_slots true Y) j s = Some (num Y (j, s)) /\
+     let t := tk (make_graph true Y) (num Y (j, s)) in
+     nth s (slot_tasks true Y j) None = Some (setch t []) /\
+     forall c, In c (children t) <-> In (num Y (j, s), c) (EN Y)).
+Proof. exact make_graph_numbering. Qed.
+Print Assumptions C07_make_graph_numbering.
+
+(* Face neighbours of DensitySubGridCreator::create_subgrid (d = 0 2 4: x+ y+ z+, d + 1: the opposite face) are mutual
+   and in range, for every layout and periodicity (div/mod index arithmetic with periodic wrap). *)
+Theorem C07_neighbours_mutual : forall Y, 1 <= lnx Y -> 1 <= lny Y -> 1 <= lnz Y ->
+  forall i j d, i < nsub Y -> j < nsub Y -> In d [0; 2; 4] -> (nb Y i d = Some j <-> nb Y j (S d) = Some i).
+Proof. exact nb_mutual. Qed.
+Print Assumptions C07_neighbours_mutual.
+
+Theorem C07_neighbours_in_range : forall Y, 1 <= lnx Y -> 1 <= lny Y -> 1 <= lnz Y ->
+  forall i j d, i < nsub Y -> d < 6 -> nb Y i d = Some j -> j < nsub Y.
+Proof. exact nb_in_range. Qed.
+Print Assumptions C07_neighbours_in_range.
+
+(* Cross-check by evaluation in the kernel, independent of the general proof: the boolean [wf_check] - the checker that
+   the run-time tie evaluates on the dumped REAL task tables - accepts make_graph true for all 512 layouts with 1..4
+   subgrids per axis and all periodicities (so the checker is not stricter than what the code builds). *)
+Theorem C07_wf_check_accepts_upto_4 : check_upto 4 = true.
+Proof. exact check_upto_bound. Qed.
+Print Assumptions C07_wf_check_accepts_upto_4.
 
 (* A pair task of a subgrid with itself (one subgrid on a periodic axis) has exactly one lock, the lock of the only
    subgrid it touches, which every other task of that subgrid also takes (all layouts up to 3 x 3 x 3): it is covered
